@@ -61,6 +61,15 @@ CTOR_FAILS = ["init", "new", "meta", "abstract", "abstract_plain", "needs_args",
 #   helper base of the module and implemented;  meta_ok  a metaclass whose __call__ delegates;  new_ok  own __new__
 CTOR_FLAVOURS = ["abc_concrete", "abc_implemented", "meta_ok", "new_ok"]
 
+# The truth value of a mode INSTANCE (class key "truth"): the selector keeps the selected instance in
+# self.active_mode and must tell "a mode" from "no mode" (None), not "truthy" from "falsy":
+#   len0        the class defines __len__ returning 0 (a container of steps that is still empty): bool(instance) False
+#   bool_false  the class defines __bool__ returning False
+#   len_grows   __len__ counts the on_iteration calls so far: falsy when selected and enabled, truthy afterwards
+#   len3        __len__ returns 3: truthy like every ordinary instance (decoy)
+TRUTHS = ["len0", "bool_false", "len_grows", "len3"]
+FALSY_TRUTHS = ("len0", "bool_false", "len_grows")
+
 # How the __path__ of an implicit (namespace) package looks (pkg key "nspath", only with "namespace"):
 #   once         one directory                         twice        the directory is on sys.path twice
 #   thrice       ... three times                       split        two directories, each with some of the modules
@@ -159,6 +168,8 @@ def gen_cls(r, cname, mnames, faulty):
         c["how"] = r.choice(CTOR_FAILS)
     elif r.random() < 0.15:
         c["how"] = r.choice(CTOR_FLAVOURS)
+    if r.random() < 0.22:
+        c["truth"] = r.choice(["len0", "len0", "bool_false", "bool_false", "len_grows", "len3"])
     return c
 
 
@@ -513,6 +524,19 @@ EDGE_CASES = [
      [], {"namespace": True, "nspath": "split"}),
     (False, [("alpha", None, [("A", "one", None, None, False)], 0), ("beta", "ValueError", [], 1)],
      [], {"namespace": True, "nspath": "split"}),
+    # a mode whose INSTANCE is falsy (__len__ == 0, __bool__ False) is a mode like any other
+    (False, [("alpha", None, [("A", "one", None, True, False, "len0"), ("B", "two", None, None, False)])],
+     [["start", None, None, 0], ["periodic", 20000], ["periodic", 20000], ["disable"],
+      ["run", None, None, 0, 3, 20000, "disable"], ["run", "one", "two", 0, 2, 20000, "teleop"]]),
+    (True, [("alpha", None, [("A", "one", None, None, False, "bool_false"), ("B", "two", None, True, False, "len3")])],
+     [["start", None, "one", 0], ["periodic", 20000], ["disable"], ["start", "one", None, 0], ["periodic", 1000], ["disable"],
+      ["run", None, "one", 0, 4, 20000, "disable", ["hook", 1]]]),
+    (False, [("alpha", None, [("A", "one", None, True, False, "len_grows")])],
+     [["start", None, None, 0], ["periodic", 20000], ["periodic", 20000], ["disable"],
+      ["run", None, None, 0, 2, 20000, "disable"]]),
+    (False, [("alpha", None, [("A", "one", None, None, False, "len0"), ("B", "two", None, None, False, "bool_false")])],
+     [["start", None, "one", 0], ["periodic", 20000], ["start", None, "two", 1000], ["periodic", 20000],
+      ["start", None, "None", 0], ["periodic", 1000], ["disable"]]),
     # D15: a module file NAME in both directories of an implicit package -- one module for Python (the file in the
     # first directory of __path__), so its classes are constructed once; the other file is never looked at
     (False, [("alpha", None, [("A", "one", None, True, False)], 0), ("alpha", None, [("A", "one", None, True, False)], 1, True),
@@ -546,9 +570,10 @@ def edge_cases(base, start_idx):
         for mod in mods:
             stem, fail, cls = mod[:3]
             pkg["modules"].append({"stem": stem, "fail": fail, "junk": False, "classes": [
-                {"cname": cn, "mode": mo, "mn_none": False, "disabled": di, "default": de,
-                 "raises": ra is True or ra in CTOR_FAILS, "how": ra if isinstance(ra, str) else None}
-                for (cn, mo, di, de, ra) in cls]})
+                {"cname": x[0], "mode": x[1], "mn_none": False, "disabled": x[2], "default": x[3],
+                 "raises": x[4] is True or x[4] in CTOR_FAILS, "how": x[4] if isinstance(x[4], str) else None,
+                 "truth": x[5] if len(x) > 5 else None}
+                for x in cls]})
             if len(mod) > 3:
                 pkg["modules"][-1]["portion"] = mod[3]
             if len(mod) > 4 and mod[4]:
@@ -736,6 +761,17 @@ def cls_source(stem, c):
         lines += ["    def c14_step(self):", "        return 1"]
     if how in ("needs_args", "needs_args_plain"):
         lines += ["    def __init__(self, c14_ctor_fail_arg, *a, **kw):", "        super().__init__(*a, **kw)"]
+    truth_v = c.get("truth")
+    if truth_v == "len0":
+        lines += ["    def __len__(self):", "        return 0"]
+    elif truth_v == "len3":
+        lines += ["    def __len__(self):", "        return 3"]
+    elif truth_v == "bool_false":
+        lines += ["    def __bool__(self):", "        return False"]
+    elif truth_v == "len_grows":
+        lines += ["    def __len__(self):", "        return getattr(self, 'c14_steps', 0)",
+                  "    def on_iteration(self, t):", "        self.c14_steps = getattr(self, 'c14_steps', 0) + 1",
+                  "        super().on_iteration(t)"]
     return pre + "\n".join(lines) + "\n\n"
 
 
@@ -1527,7 +1563,12 @@ def oracle(case, obs, base):
     if obs.get("problem"):
         v.append(("lifecycle-crash", obs["problem"]))
         return v
-    v += oracle_lifecycle(obs, modes)
+    lv = oracle_lifecycle(obs, modes)
+    falsy = ["%s.%s (%s)" % (k, c["cname"], TRUTH_TEXT[c["truth"]]) for k, c in healthy if c.get("truth") in FALSY_TRUTHS]
+    if lv and falsy:
+        lv = [(fp, text + "; instances of %s are falsy -- modes all the same: only None means 'no mode'" % ", ".join(falsy[:3]))
+              for fp, text in lv]
+    v += lv
     return v
 
 
@@ -1536,6 +1577,10 @@ CTOR_TEXT = {"init": "its __init__ raises", "new": "its __new__ raises", "meta":
              "abstract_plain": "it is an abstract class (abc, an abstract method is not implemented): TypeError",
              "needs_args": "its __init__ wants an argument the selector does not pass: TypeError",
              "needs_args_plain": "its __init__ wants an argument the selector does not pass: TypeError"}
+
+
+TRUTH_TEXT = {"len0": "__len__ returns 0", "bool_false": "__bool__ returns False",
+              "len_grows": "__len__ = number of on_iteration calls so far: 0 when the period begins"}
 
 
 def import_text(imp):
@@ -1781,6 +1826,10 @@ def shrink(case, fails):
                     c = copy.deepcopy(cur)
                     c["pkg"]["modules"][i]["classes"][j]["how"] = None
                     cands.append(c)
+                if x.get("truth"):
+                    c = copy.deepcopy(cur)
+                    c["pkg"]["modules"][i]["classes"][j]["truth"] = None
+                    cands.append(c)
         for c in cands:
             budget -= 1
             if budget <= 0:
@@ -1856,6 +1905,12 @@ def run(ctx):
                     "same-classes" if m["classes"] == live["classes"] and not live["fail"] else "other-classes"))
         for _, x in needed_classes(c):
             ctx.count("needed-class:constructor=%s" % (how_of(x) or "plain"))
+            if x.get("truth"):
+                ctx.count("needed-class:instance-truth=%s" % x["truth"])
+        falsy_ids = [[mod_file(c["pkg"], base, k), x["cname"]] for k, x in needed_classes(c) if x.get("truth") in FALSY_TRUTHS]
+        nfalsy = sum(1 for e in o["events"] if e[0] == 0 and e[1] in falsy_ids)
+        if nfalsy:
+            ctx.count("period:on_enable-delivered-to-a-falsy-instance", nfalsy)
         first_ctor_fault = [x for _, x in needed_classes(c) if x["raises"]]
         if first_ctor_fault and not c["fms"] and o["err"] == 3:
             ctx.count("no-fms:raised-by-constructor-failure=%s" % how_of(first_ctor_fault[0]))
@@ -2054,6 +2109,8 @@ def replay(ctx, obj):
                   % mod_file(case["pkg"], base, skey(case["pkg"], m)))
     for m in live_modules(case["pkg"]):
         for c in m["classes"]:
+            if c.get("truth") in FALSY_TRUTHS:
+                print("instances of class %s.%s are falsy (%s)" % (m["stem"], c["cname"], TRUTH_TEXT[c["truth"]]))
             if c.get("raises"):
                 print("class %s.%s cannot be constructed: %s" % (m["stem"], c["cname"], CTOR_TEXT[how_of(c)]))
     print("exception=%s constructor calls=%s" % (o["exc"], [c[1] for c in o["ctors"]]))
